@@ -295,9 +295,10 @@ def _similarity_strategy(draw, tier='quick'):
     case = draw(pkg.panel_case(models=('plate', 'cpanel', 'plate_w', 'kpanel'), mmax=4, mmin=2, with_mu=True, max_plies=3))
     case.pop('tiling', None)
     case['N'] = [-abs(draw(gen.fl(1., 100.))), draw(gen.fl(-100., 20.)), draw(gen.fl(-50., 50.))]
-    case['s'] = draw(gen.fl(0.2, 5.))
-    case['e'] = draw(gen.fl(0.2, 5.))
-    case['q'] = draw(gen.fl(0.2, 5.))
+    # any positive scale factors, i.e. any unit system: m <-> mm (s = 1e3), Pa <-> MPa (e = 1e-6), kg/m3 <-> t/mm3 (q = 1e-12)
+    case['s'] = draw(st.one_of(gen.fl(0.2, 5.), gen.logfl(1e-3, 1e3), st.sampled_from([1e3, 1e-3])))
+    case['e'] = draw(st.one_of(gen.fl(0.2, 5.), gen.logfl(1e-6, 1e6), st.sampled_from([1e-6, 1e6])))
+    case['q'] = draw(st.one_of(gen.fl(0.2, 5.), gen.logfl(1e-12, 1e3), st.sampled_from([1e-12, 1e-9])))
     return case
 
 
